@@ -143,8 +143,8 @@ META = {
          "reports an error beyond 10 (first ten still repaired); the codec's decision function is transparent when the delegate succeeds (repair "
          "path never entered) and returns success only after a fully successful repair, otherwise the delegate's error. History blobs "
          "(translateOneDataBlob): transparent on accepted blobs; the clause 'what cannot be repaired is reported as an error' is REFUTED for the "
-         'current code by a kernel-checked witness (invalid UTF-8 outside failure messages passes silently; reproduced on the real code on every '
-         "run, KNOWN-FINDING), proved under 'something was repairable' and for the fixed model. Tied to the real code: exhaustive comparison with "
+         'PINNED code by a kernel-checked witness (invalid UTF-8 outside failure messages passed silently; reproduced on the real code and '
+         "repaired by a fix: commit), and proved in full for the current code (BlobDefects.fixed, what the driver runs). Tied to the real code: exhaustive comparison with "
          "Go's functions, chains through the generated visitor, and the registered codec on legacy-schema wire bytes with an independent proto.Equal "
          'monitor.',
  'design_ref': 'DESIGN.md §5 C17',
